@@ -54,10 +54,9 @@ Section BuilderProofs.
     destruct (deref_ptr t) as [k nm|i| | | | | | | | | ]; try discriminate.
     - intros H. injection H as <-. eauto.
     - destruct (get_named (d_env d) i) as [nn|]; [|discriminate].
-      destruct (n_has_pkg nn && str_eqb (n_pkg_path nn) (d_pkg_path d)).
+      destruct (negb (n_has_pkg nn) || str_eqb (n_pkg_path nn) (d_pkg_path d)).
       + intros H. injection H as <-. eauto.
-      + destruct (negb (n_has_pkg nn)); [discriminate|].
-        destruct (lookup_name d (n_pkg_path nn)); intros H; injection H as <-; eauto.
+      + destruct (lookup_name d (n_pkg_path nn)); intros H; injection H as <-; eauto.
   Qed.
 
   Lemma cast_node_shape t r n ev :
